@@ -2665,3 +2665,310 @@ Proof.
   - rewrite set_out_at_body. destruct (if Nat.ltb j (List.length body) then _ else _) as [vj' ps'].
     destruct (apply_pushes _ ps' outs). reflexivity.
 Qed.
+
+(* ================================================================================== *)
+(* P. the inlined body: parameters replaced by their values                              *)
+Lemma subst_env_val args env a : all_data args = true ->
+  (match a with AParam i => i < List.length args | _ => True end) ->
+  env_val [] env (subst_arg args a) = env_val args env a.
+Proof.
+  intros Hd Hi. destruct a as [i|j l|z]; simpl; auto.
+  assert (H : is_data (nth i args None) = true) by (apply all_data_nth; auto).
+  destruct (nth i args None); [reflexivity|discriminate].
+Qed.
+
+Definition inline_body (args : list val) (body : list (stmt mdef)) : list (stmt mdef) :=
+  map (fun st => mkStmt (s_label st) (s_mac st) (map (subst_arg args) (s_args st))) body.
+
+Lemma denote_body_inline den args body : forall env,
+  all_data args = true ->
+  (forall st a, In st body -> In a (s_args st) -> match a with AParam i => i < List.length args | _ => True end) ->
+  denote_body den [] (inline_body args body) env = denote_body den args body env.
+Proof.
+  induction body as [|st r IH]; intros env Hd Hp; simpl; auto.
+  assert (Hm : map (env_val [] env) (map (subst_arg args) (s_args st)) = map (env_val args env) (s_args st)).
+  { rewrite map_map. apply map_ext_in. intros a Ha. apply subst_env_val; auto. apply (Hp st a); simpl; auto. }
+  rewrite Hm. destruct (s_mac st) as [d'|].
+  - destruct (all_data (fill (map (env_val args env) (s_args st)) (d_params d'))); auto.
+    destruct (den d' _); auto. apply IH; auto. intros; eapply Hp; simpl; eauto.
+  - destruct (all_data (map (env_val args env) (s_args st))); auto. apply IH; auto. intros; eapply Hp; simpl; eauto.
+Qed.
+
+(* the outputs that are returned child channels (parameters passed straight through are the values) *)
+Definition aout_rets (rets : list (string * arg)) := filter (fun la => match snd la with AOut _ _ => true | _ => false end) rets.
+
+Lemma wfd_param_lt ps body rets fl : wfd (MDef ps body rets fl) = true ->
+  forall st a, In st body -> In a (s_args st) -> match a with AParam i => i < List.length ps | _ => True end.
+Proof.
+  simpl. intros H st a Hst Ha. apply andb_true_iff in H as [_ Hb].
+  destruct (wf_body_spec _ _ _ _ _ Hb) as [Hs _]. destruct (In_nth _ _ dstmt Hst) as (j & Hj & <-).
+  destruct (Hs j Hj) as [Hok _]. rewrite forallb_forall in Hok. specialize (Hok a Ha).
+  apply refs_of_ref_ok in Hok. destruct a; auto.
+Qed.
+
+(* plain composition of the inlined definition = the child-channel outputs of the definition's *)
+Theorem denote_inline d args : wfd d = true -> List.length args = List.length (d_params d) -> all_data args = true ->
+  exists E, denote_body denote args (d_body d) [] = Some E /\
+    denote d args = Some (map (fun la => env_val args E (snd la)) (d_rets d)) /\
+    denote (inline d args) [] = Some (map (fun la => env_val args E (snd la)) (aout_rets (d_rets d))).
+Proof.
+  intros Hwf HL Hd. destruct d as [ps body rets fl]. simpl in HL.
+  destruct (denote_total _ Hwf args HL Hd) as (outs & Hden & _).
+  cbn [denote] in Hden. destruct (denote_body denote args body []) as [E|] eqn:HE; [|discriminate].
+  exists E. split; auto. split; [cbn [denote]; now rewrite HE|].
+  cbn [inline denote]. fold (inline_body args body).
+  rewrite denote_body_inline; auto.
+  - rewrite HE. f_equal. unfold aout_rets. apply map_ext_in. intros [lab a] Hin.
+    apply filter_In in Hin as [_ Ha]. simpl in *. destruct a; try discriminate. reflexivity.
+  - intros st a Hst Ha. rewrite HL. eapply wfd_param_lt; eauto.
+Qed.
+
+Lemma mems_filter_fst {B} (f : string * B -> bool) x l : mems x (map fst (filter f l)) = true -> mems x (map fst l) = true.
+Proof.
+  rewrite !mems_In. rewrite !in_map_iff. intros (y & Hy & Hin). apply filter_In in Hin as [Hin _]. eauto.
+Qed.
+
+Lemma nodup_str_filter {B} (f : string * B -> bool) l : nodup_str (map fst l) = true -> nodup_str (map fst (filter f l)) = true.
+Proof.
+  induction l as [|[x b] r IH]; simpl; auto. intros H. apply andb_true_iff in H as [Hx Hr].
+  destruct (f (x, b)); simpl; auto. rewrite IH by auto. rewrite andb_true_r.
+  destruct (mems x (map fst (filter f r))) eqn:E; auto. apply mems_filter_fst in E. rewrite E in Hx. discriminate.
+Qed.
+
+Lemma nodupb_filter_snd (f : string * arg -> bool) l :
+  nodupb arg_eqb (map snd l) = true -> nodupb arg_eqb (map snd (filter f l)) = true.
+Proof.
+  induction l as [|[x b] r IH]; simpl; auto. intros H. apply andb_true_iff in H as [Hx Hr].
+  destruct (f (x, b)); simpl; auto. rewrite IH by auto. rewrite andb_true_r.
+  destruct (memb arg_eqb b (map snd (filter f r))) eqn:E; auto.
+  apply memb_arg_In in E. apply in_map_iff in E as (y & Hy & Hin). apply filter_In in Hin as [Hin _].
+  assert (memb arg_eqb b (map snd r) = true) by (apply memb_arg_In; apply in_map_iff; eauto).
+  rewrite H in Hx. discriminate.
+Qed.
+
+Lemma ref_ok_subst np nouts args a : List.length args = np -> all_data args = true ->
+  ref_ok np nouts true a = true -> ref_ok 0 nouts true (subst_arg args a) = true.
+Proof.
+  intros HL Hd H. destruct a as [i|j l|z]; simpl in *; auto.
+  apply Nat.ltb_lt in H. assert (Hi : is_data (nth i args None) = true) by (apply all_data_nth; auto; lia).
+  destruct (nth i args None); [reflexivity|discriminate].
+Qed.
+
+Lemma wf_body_inline np rets args body : forall acc,
+  List.length args = np -> all_data args = true ->
+  wf_body wfd np rets body acc = true -> wf_body wfd 0 (aout_rets rets) (inline_body args body) acc = true.
+Proof.
+  induction body as [|st r IH]; intros acc HL Hd H; simpl in *.
+  - unfold aout_rets. rewrite forallb_forall in *. intros [lab a] Hin. apply filter_In in Hin as [Hin Ha].
+    specialize (H _ Hin). simpl in *. destruct a; try discriminate. exact H.
+  - apply andb_true_iff in H as [Ha H]. apply andb_true_iff. split.
+    + rewrite forallb_forall in *. intros a Hin. apply in_map_iff in Hin as (a0 & <- & Hin0).
+      apply (ref_ok_subst np); auto.
+    + rewrite map_length. destruct (s_mac st) as [d'|]; [|apply IH; auto].
+      apply andb_true_iff in H as [H H4]. rewrite H. simpl. apply IH; auto.
+Qed.
+
+Lemma topo_ok_inline ord args body : topo_ok ord body = true -> topo_ok ord (inline_body args body) = true.
+Proof.
+  unfold topo_ok, inline_body. rewrite map_length. intros H. rewrite forallb_forall in *. intros j Hj.
+  specialize (H j Hj). apply in_seq in Hj.
+  change (mkStmt "" None []) with ((fun st : stmt mdef => mkStmt (s_label st) (s_mac st) (map (subst_arg args) (s_args st))) (mkStmt "" None [])).
+  rewrite map_nth. simpl. rewrite forallb_forall in *. intros a Hin. apply in_map_iff in Hin as (a0 & <- & Hin0).
+  specialize (H a0 Hin0). destruct a0 as [i|j' l|z]; simpl in *; auto. destruct (nth i args None); auto.
+Qed.
+
+Lemma wfd_inline d args : wfd d = true -> List.length args = List.length (d_params d) -> all_data args = true ->
+  wfd (inline d args) = true /\ (rets_distinct d = true -> rets_distinct (inline d args) = true).
+Proof.
+  destruct d as [ps body rets fl]. intros H HL Hd. simpl in HL. simpl in H.
+  apply andb_true_iff in H as [H Hb]. apply andb_true_iff in H as [Hn Hf]. split.
+  - cbn [inline wfd]. fold (inline_body args body). fold (aout_rets rets).
+    unfold aout_rets at 1. rewrite (nodup_str_filter _ rets Hn). cbn [List.length andb].
+    rewrite (wf_body_inline _ _ _ _ [] HL Hd Hb). rewrite andb_true_r.
+    destruct fl as [|ord|b]; simpl in *; auto.
+    unfold inline_body. rewrite map_length.
+    apply andb_true_iff in Hf as [Hf Ht]. rewrite Hf. simpl. now apply topo_ok_inline.
+  - cbn [inline rets_distinct]. intros Hr. apply andb_true_iff in Hr as [Hr1 Hr2].
+    rewrite (nodupb_filter_snd _ rets Hr1). cbn [andb].
+    clear -Hr2. induction body as [|st r IH]; simpl in *; auto.
+    apply andb_true_iff in Hr2 as [A B]. rewrite A. simpl. auto.
+Qed.
+
+(* the same body built directly with the same inputs runs to the same values *)
+Theorem inlined_run d args l' s' v0' :
+  wfd d = true -> rets_distinct d = true -> List.length args = List.length (d_params d) -> all_data args = true ->
+  build (inline d args) l' = Some (s', v0') ->
+  exists v' c ps E, run s' v0' = Some (v', c, ps) /\
+    denote d args = Some (map (fun la => env_val args E (snd la)) (d_rets d)) /\
+    v_outs v' = map (fun la => env_val args E (snd la)) (aout_rets (d_rets d)).
+Proof.
+  intros Hwf Hrd HL Hd Hb. destruct (wfd_inline d args Hwf HL Hd) as [Hwi Hri].
+  destruct (denote_inline d args Hwf HL Hd) as (E & _ & Hden & Hdi).
+  destruct (build_ok _ _ _ _ Hb) as (_ & _ & _ & Hins & _).
+  assert (Hi0 : v_ins v0' = []). { rewrite Hins. destruct d; reflexivity. }
+  destruct (equals_inlined (inline d args) l' s' v0' [] v0' Hwi (Hri Hrd) Hb (Forall_nil _) eq_refl) as (v' & c & ps & Hr & _ & Hd').
+  { now rewrite Hi0. }
+  exists v', c, ps, E. split; auto. split; auto. rewrite Hi0 in Hd'. congruence.
+Qed.
+
+(* ================================================================================== *)
+(* Q. the value links survive EVERY operation that is not applied on the receiving side  *)
+Fixpoint slinks (s : snode) {struct s} : Prop :=
+  match s with
+  | SFn _ _ _ => True
+  | SMac _ ps ols recvs kept uirecv body _ _ =>
+      let np := List.length ps in
+      let nb := List.length body in
+      List.length recvs = np /\ List.length kept = np /\
+      (forall i, i < np ->
+         match nth i recvs ROrphan with
+         | RUI i' => i' = i /\ nth i kept false = true
+         | RBody j k => nth i kept false = false /\ j < nb /\ k < s_nins (kid body j) /\
+                        nth k (sb_conns (nth j body dsb)) [] = []
+         | ROrphan => True
+         end) /\
+      (forall i i' j k, i < np -> i' < np -> nth i recvs ROrphan = RBody j k -> nth i' recvs ROrphan = RBody j k -> i = i') /\
+      (forall j l j' l' o, j < nb -> j' < nb ->
+         nth l (sb_orecv (nth j body dsb)) None = Some o -> nth l' (sb_orecv (nth j' body dsb)) None = Some o -> j = j' /\ l = l') /\
+      (forall i j l o, i < np -> j < nb -> nth i uirecv None = Some o -> nth l (sb_orecv (nth j body dsb)) None = Some o -> False) /\
+      (forall i i' o, i < np -> i' < np -> nth i uirecv None = Some o -> nth i' uirecv None = Some o -> i = i') /\
+      (forall i, i < np -> nth i kept false = false -> nth i uirecv None = None) /\
+      (forall j, j < nb -> List.length (sb_conns (nth j body dsb)) = s_nins (kid body j)) /\
+      all1 (fun e => slinks (sb_node e)) body
+  end.
+
+Lemma slinks_kids l ps ols recvs kept uirecv body manual order :
+  slinks (SMac l ps ols recvs kept uirecv body manual order) -> forall j, j < List.length body -> slinks (kid body j).
+Proof. cbn [slinks]. intros (_ & _ & _ & _ & _ & _ & _ & _ & _ & H) j Hj. exact (proj1 (all1_nth _ dsb body) H j Hj). Qed.
+
+Lemma wired_slinks d : forall s, wired d s -> slinks s.
+Proof.
+  induction d as [ps body rets fl IH] using mdef_ind'. intros s Hw.
+  destruct s as [|l ps' ols recvs kept uirecv sb manual order]; [simpl in Hw; tauto|].
+  pose proof (wired_kids _ _ _ _ _ _ _ _ _ _ _ _ _ Hw) as [Hlen Hwk].
+  destruct Hw as (-> & -> & HWL & _).
+  pose proof (fun j k a => arg_lt_nins _ _ _ _ _ _ _ _ _ _ j k a HWL) as Hargk.
+  pose proof (uirecv_is _ _ _ _ _ _ _ _ _ _ HWL) as Huis.
+  pose proof (orecv_is _ _ _ _ _ _ _ _ _ _ HWL Hlen (repeat None (List.length ps)) (repeat_length _ _)) as Hois.
+  destruct HWL as (Hlr & Hlk & Hlu & Hcfg & Hui & Hrk & Hrb & Hrb' & Hpass & Hbody).
+  cbn [slinks]. rewrite <- Hlen.
+  split; [auto|]. split; [auto|]. split; [|split; [|split; [|split; [|split; [|split; [|split]]]]]].
+  - intros i Hi. destruct (nth i kept false) eqn:Ek.
+    + rewrite (Hrk i Hi Ek). auto.
+    + specialize (Hrb' i Hi Ek). destruct (nth i recvs ROrphan) as [i'|j k|]; [tauto| |exact I].
+      destruct Hrb' as [Hj Ha]. split; auto. split; auto. split; [eapply Hargk; eauto|].
+      destruct (Hbody j Hj) as (_ & _ & _ & Hconn & _). rewrite Hconn by (eapply Hargk; eauto).
+      rewrite Ha. simpl. now rewrite Ek.
+  - intros i i' j k Hi Hi' Hr Hr'.
+    destruct (nth i kept false) eqn:Ek; [rewrite (Hrk i Hi Ek) in Hr; discriminate|].
+    destruct (nth i' kept false) eqn:Ek'; [rewrite (Hrk i' Hi' Ek') in Hr'; discriminate|].
+    pose proof (Hrb' i Hi Ek) as A. rewrite Hr in A. pose proof (Hrb' i' Hi' Ek') as B. rewrite Hr' in B.
+    destruct A as [_ A], B as [_ B]. congruence.
+  - intros j lo j' lo' o Hj Hj' Ho Ho'.
+    pose proof (last_idx_inj _ _ _ _ (Hois j lo o Hj Ho) (Hois j' lo' o Hj' Ho')) as E. inversion E; auto.
+  - intros i j lo o Hi Hj Ho Ho'.
+    pose proof (last_idx_inj _ _ _ _ (Huis i o Hi Ho) (Hois j lo o Hj Ho')) as E. discriminate.
+  - intros i i' o Hi Hi' Ho Ho'.
+    pose proof (last_idx_inj _ _ _ _ (Huis i o Hi Ho) (Huis i' o Hi' Ho')) as E. inversion E; auto.
+  - intros i Hi Ek. destruct (nth i uirecv None) as [o|] eqn:Eo; auto.
+    assert (Hk : nth i kept false = true). { apply Hpass; auto. rewrite <- Hui by auto. congruence. } congruence.
+  - intros j Hj. apply Hbody; auto.
+  - apply (all1_nth _ dsb). intros j Hj. rewrite <- Hlen in Hj. specialize (Hwk j Hj). fold (kid sb j).
+    destruct (s_mac (nth j body dstmt)) as [d'|] eqn:Em.
+    + apply (IH j d' Em). tauto.
+    + rewrite Hwk. exact I.
+Qed.
+
+Lemma synced_kids l ps ols recvs kept uirecv body manual order v :
+  synced (SMac l ps ols recvs kept uirecv body manual order) v ->
+  forall j, j < List.length body -> synced (kid body j) (nth j (v_body v) dv).
+Proof. cbn [synced]. intros (_ & _ & _ & H). apply (all2_nth _ dsb dv) in H as [_ H]. exact H. Qed.
+
+Definition in_links (ps : list param) (recvs : list recv) (ins : list val) (ui vb : list vnode) : Prop :=
+  forall i, i < List.length ps ->
+    match nth i recvs ROrphan with
+    | RUI i' => nth 0 (v_ins (nth i' ui dv)) None = nth i ins None
+    | RBody j k => nth k (v_ins (nth j vb dv)) None = nth i ins None
+    | ROrphan => True
+    end.
+Definition ui_links (ps : list param) (kept : list bool) (uirecv : list (option nat)) (outs : list val) (ui : list vnode) : Prop :=
+  forall i o, i < List.length ps -> nth i kept false = true -> nth i uirecv None = Some o ->
+              nth o outs None = nth 0 (v_outs (nth i ui dv)) None.
+Definition body_links (body : list (sbody snode)) (outs : list val) (vb : list vnode) : Prop :=
+  forall j l o, j < List.length body -> nth l (sb_orecv (nth j body dsb)) None = Some o ->
+                nth o outs None = nth l (v_outs (nth j vb dv)) None.
+
+Lemma synced_intro l ps ols recvs kept uirecv body manual order v :
+  in_links ps recvs (v_ins v) (v_ui v) (v_body v) -> ui_links ps kept uirecv (v_outs v) (v_ui v) ->
+  body_links body (v_outs v) (v_body v) -> List.length (v_body v) = List.length body ->
+  (forall j, j < List.length body -> synced (kid body j) (nth j (v_body v) dv)) ->
+  synced (SMac l ps ols recvs kept uirecv body manual order) v.
+Proof.
+  intros A B C D E. cbn [synced]. split; [exact A|]. split; [exact B|]. split; [exact C|].
+  apply (all2_nth _ dsb dv). split; [lia|exact E].
+Qed.
+
+Lemma synced_elim l ps ols recvs kept uirecv body manual order v :
+  synced (SMac l ps ols recvs kept uirecv body manual order) v ->
+  in_links ps recvs (v_ins v) (v_ui v) (v_body v) /\ ui_links ps kept uirecv (v_outs v) (v_ui v) /\
+  body_links body (v_outs v) (v_body v).
+Proof. cbn [synced]. intros (A & B & C & _). auto. Qed.
+
+(* a macro-level input update keeps every link of the macro (and below) in agreement *)
+Lemma synced_set_in : forall s v k x, slinks s -> vshape s v -> synced s v -> synced s (set_in s v k x).
+Proof.
+  induction s as [l i a|l ps ols recvs kept uirecv body manual order IH] using snode_ind'; intros v k x Hsl Hv Hsy.
+  - exact I.
+  - destruct (vshape_kids _ _ _ _ _ _ _ _ _ _ Hv) as [HLb Hkv].
+    pose proof (slinks_kids _ _ _ _ _ _ _ _ _ Hsl) as Hks.
+    pose proof (synced_kids _ _ _ _ _ _ _ _ _ _ Hsy) as Hksy.
+    destruct (synced_elim _ _ _ _ _ _ _ _ _ _ Hsy) as (HI & HU & HB).
+    pose proof Hv as (A & B & C & D & _).
+    pose proof Hsl as (Lr & Lk & S0 & S2 & _).
+    rewrite set_in_mac. unfold set_mac_with. destruct v as [ins outs c ui vb].
+    simpl in A, B, C, D, HLb, Hkv, Hksy, HI, HU, HB.
+    destruct (Nat.ltb_spec k (List.length ps)) as [Hk|Hk].
+    2:{ replace (nth_error recvs k) with (@None recv) by (symmetry; apply nth_error_None; lia).
+        rewrite upd_nth_overflow by lia. exact Hsy. }
+    rewrite (nth_error_of_nth recvs k ROrphan) by lia.
+    pose proof (S0 k Hk) as S0k. pose proof (HI k Hk) as HIk.
+    destruct (nth k recvs ROrphan) as [i'|j k'|] eqn:Er.
+    + destruct S0k as [-> Hkept].
+      apply synced_intro; simpl; auto.
+      * intros i Hi. pose proof (S0 i Hi) as S0i. pose proof (HI i Hi) as HIi.
+        destruct (nth i recvs ROrphan) as [i'|j k'|] eqn:Eri; auto.
+        -- destruct S0i as [-> _]. destruct (Nat.eq_dec i k) as [->|Hne].
+           ++ rewrite !nth_upd_same by lia. rewrite set_fn_ins. apply nth_upd_same.
+              destruct (D k Hk) as [-> _]. lia.
+           ++ rewrite !nth_upd_other by auto. exact HIi.
+        -- rewrite nth_upd_other; auto. intros ->. rewrite Er in Eri. discriminate.
+      * intros i o Hi Hki Ho. rewrite (HU i o Hi Hki Ho). destruct (Nat.eq_dec i k) as [->|Hne].
+        -- rewrite nth_upd_same by lia. destruct (nth k ui dv); reflexivity.
+        -- rewrite nth_upd_other by auto. reflexivity.
+    + destruct S0k as (Hkept & Hj & Hk' & _).
+      apply synced_intro; simpl; rewrite ?upd_nth_length; auto.
+      * intros i Hi. pose proof (S0 i Hi) as S0i. pose proof (HI i Hi) as HIi.
+        destruct (nth i recvs ROrphan) as [i'|j2 k2|] eqn:Eri; auto.
+        -- destruct (Nat.eq_dec i k) as [->|Hne]; [rewrite Er in Eri; discriminate|].
+           rewrite nth_upd_other by auto. exact HIi.
+        -- destruct (Nat.eq_dec i k) as [->|Hne].
+           ++ rewrite Er in Eri. inversion Eri; subst j2 k2. rewrite !nth_upd_same by lia.
+              rewrite set_in_ins. apply nth_upd_same.
+              specialize (Hkv j Hj). destruct (kid body j); simpl in *; destruct Hkv as [E1 _]; lia.
+           ++ rewrite (nth_upd_other k i) by auto. rewrite <- HIi.
+              destruct (Nat.eq_dec j2 j) as [->|Hnj]; [|now rewrite nth_upd_other by lia].
+              rewrite nth_upd_same by lia. rewrite set_in_ins. apply nth_upd_other.
+              intros ->. apply Hne. apply (S2 i k j k2); auto.
+      * intros j2 lo o Hj2 Ho. rewrite (HB j2 lo o Hj2 Ho). destruct (Nat.eq_dec j2 j) as [->|Hnj].
+        -- rewrite nth_upd_same by lia. now rewrite set_in_outs.
+        -- rewrite nth_upd_other by lia. reflexivity.
+      * intros j2 Hj2. destruct (Nat.eq_dec j2 j) as [->|Hnj].
+        -- rewrite nth_upd_same by lia. apply IH; auto.
+        -- rewrite nth_upd_other by lia. auto.
+    + apply synced_intro; simpl; auto.
+      intros i Hi. pose proof (HI i Hi) as HIi.
+      destruct (nth i recvs ROrphan) as [i'|j2 k2|] eqn:Eri; auto.
+      * pose proof (S0 i Hi) as S0i. rewrite Eri in S0i. destruct S0i as [-> _].
+        rewrite nth_upd_other; auto. intros ->. rewrite Er in Eri. discriminate.
+      * rewrite nth_upd_other; auto. intros ->. rewrite Er in Eri. discriminate.
+Qed.
